@@ -6,6 +6,7 @@ CONSTANTS
  Levels <- LevelsDef
  Quiet = FALSE
  ExtSetUp = TRUE
+ WithLeave = FALSE
  KF_OpenAfterClose = FALSE
  KF_GuardOnVisibleOnly = FALSE
 KF_SurvivorsOnly = TRUE
